@@ -888,6 +888,7 @@ impl Version {
                 if first_key <= sst.first_key.as_slice()
                     && sst.last_key.as_slice() <= last_key
                     && !compaction.inputs.contains(&Setsum::from_digest(sst.setsum))
+                    && self.covers_everything_beneath(compaction, level, sst)
                 {
                     to_add.push(sst);
                 }
@@ -911,6 +912,25 @@ impl Version {
                 compaction.inputs.append(&mut to_add);
             }
         }
+    }
+
+    // NOTE:  An sst pulled into a compaction moves down to the compaction's upper level.  That is
+    // only sound when every sst it overlaps in the levels it passes is part of the compaction too;
+    // otherwise its keys land beneath older versions of themselves.
+    fn covers_everything_beneath(
+        &self,
+        compaction: &CompactionCore,
+        level: usize,
+        sst: &SstMetadata,
+    ) -> bool {
+        (level + 1..compaction.upper_level).all(|beneath| {
+            let beneath = &self.levels[beneath];
+            let lower_bound = beneath.lower_bound(&sst.first_key);
+            let upper_bound = beneath.upper_bound(&sst.last_key);
+            beneath.ssts[lower_bound..upper_bound.max(lower_bound)]
+                .iter()
+                .all(|x| compaction.inputs.contains(&Setsum::from_digest(x.setsum)))
+        })
     }
 
     fn may_choose_compaction(&self, core: &CompactionCore) -> bool {
